@@ -71,9 +71,9 @@ func c15Batch(c *caseCtx, addr string, maxLen int) (items []wireItem, ids []stri
 	if ambiguousT {
 		// same address (the receiving node), ids that glue together differently with the address
 		targets = append(targets, actor.NewPID(addr, "1/x"), actor.NewPID(addr, "1/x")) // equal copies
-		targets = append(targets, actor.NewPID(addr+"1", "/y"), actor.NewPID(addr, "1/y"))
-		// ... and a pair that reads the same when address and id are joined with the "/" that ids contain anyway
-		targets = append(targets, actor.NewPID(addr, "p/1/x"), actor.NewPID(addr+"/p", "1/x"))
+		// (all targets of a batch carry the address of the node the batch goes to - that is how the router
+		// fills a writer's inbox; split-ambiguous PIDs are therefore a matter of the sender table, below)
+		targets = append(targets, actor.NewPID(addr, "1/y"), actor.NewPID(addr, "p/1/x"), actor.NewPID(addr, "1/x"))
 	}
 	seen := map[string]bool{}
 	for _, t := range targets {
@@ -159,7 +159,7 @@ func c15Internal(c *caseCtx) (res caseResult) {
 		res.inconclusive("engine: %v %v", err, err2)
 		return
 	}
-	items, ids, desc := c15Batch(c, "peer:9", 64)
+	items, ids, desc := c15Batch(c, "local", 64)
 	res.Desc = "internal " + desc
 	batch := make([]wireDeliver, len(items))
 	for i, it := range items {
@@ -182,13 +182,13 @@ func c15Internal(c *caseCtx) (res caseResult) {
 		if len(part) == 0 {
 			continue
 		}
-		if p := catchPanic(func() { writerInvoke(e1, "peer:9", cs, fakeConn{}, part) }); p != "" {
+		if p := catchPanic(func() { writerInvoke(e1, "local", cs, fakeConn{}, part) }); p != "" {
 			res.violate("the stream writer panicked on the batch (on a node this kills the process): %s", p)
 			res.Sample = map[string]any{"scenario": res.Desc}
 			return
 		}
 	}
-	lg := registerTargets(e2, "peer:9", ids)
+	lg := registerTargets(e2, "local", ids)
 	var envs []*remote.Envelope
 	wireBytes := 0
 	for _, env := range cs.envs {
@@ -357,7 +357,7 @@ func c15InternalConc(c *caseCtx, hostile bool) (res caseResult) {
 	var streams []strm
 	var allIDs []string
 	for k := 0; k < K; k++ {
-		items, _, _ := c15Batch(c, "peer:9", 48)
+		items, _, _ := c15Batch(c, "local", 48)
 		// several envelopes per stream, targets private to the stream
 		for i := range items {
 			items[i].target = actor.NewPID(items[i].target.Address, fmt.Sprintf("s%d-%s", k, items[i].target.ID))
@@ -376,7 +376,7 @@ func c15InternalConc(c *caseCtx, hostile bool) (res caseResult) {
 			batch[i] = wireDeliver{Target: it.target, Sender: it.sender, Msg: it.msg}
 		}
 		for rd := 0; rd < rounds; rd++ {
-			if p := catchPanic(func() { writerInvoke(e1, "peer:9", cs, fakeConn{}, batch) }); p != "" {
+			if p := catchPanic(func() { writerInvoke(e1, "local", cs, fakeConn{}, batch) }); p != "" {
 				res.violate("the stream writer panicked on the batch: %s", p)
 				return
 			}
@@ -403,7 +403,7 @@ func c15InternalConc(c *caseCtx, hostile bool) (res caseResult) {
 	if hostile {
 		allIDs = append(allIDs, c16TargetIDs...)
 	}
-	lg := registerTargets(e2, "peer:9", allIDs)
+	lg := registerTargets(e2, "local", allIDs)
 	recv := sharedReader(e2)
 	var wg sync.WaitGroup
 	hostilePanic := ""
